@@ -265,6 +265,21 @@ def run(prog: Program, rep: Report, tier: str):
             ok_slots = False
             continue
         c = comps[0]
+
+        # (a sub-expression computed by a private single-path helper of the module -- `_slots_of_bases(cls)` -- reads as what it returns)
+        def _unfold(x):
+            if x[0] == "call" and x[1][0] == "ref" and x[1][1] in prog.functions and not x[3]:
+                h = prog.functions[x[1][1]]
+                if h.cls is None and h.module is f.module and h.name.startswith("_") and not h.node.decorator_list and len(x[2]) == len(h.params):
+                    try:
+                        hps = P.paths_of(prog, h)
+                    except Exception:
+                        return None
+                    if len(hps) == 1 and hps[0].exit[0] == "return":
+                        return P.substitute(hps[0].exit[1], dict(zip(h.params, x[2])))
+            return None
+
+        c = T.rewrite(c, _unfold)
         # (`if a and b` is two conditions)
         flat = []
         for cd in c[4]:
@@ -289,8 +304,8 @@ def run(prog: Program, rep: Report, tier: str):
         own_excluded = own_excluded and sliced and not unsliced
         # nothing reaches the tuple unfiltered: no other element next to the filtered comprehension, and the sequence
         # it is built from is not extended afterwards
-        unfiltered = [x for x in (v[1] if v[0] in ("tuple", "list") else ()) if not (x[0] == "star" and x[1] == c0) and x != c0]
-        grown = [ev2 for pth in rets for ev2 in pth.events if ev2[0] == "eval" and ev2[1][0] == "call" and ev2[1][1][0] == "attr" and ev2[1][1][2] in ("append", "extend", "insert", "__iadd__") and ev2[1][1][1] == c0]
+        unfiltered = [x for x in (v[1] if v[0] in ("tuple", "list") else ()) if not (x[0] == "star" and x[1] in (c0, comps[0])) and x not in (c0, comps[0])]
+        grown = [ev2 for pth in rets for ev2 in pth.events if ev2[0] == "eval" and ev2[1][0] == "call" and ev2[1][1][0] == "attr" and ev2[1][1][2] in ("append", "extend", "insert", "__iadd__") and ev2[1][1][1] in (c0, comps[0])]
         if unfiltered or grown:
             ok_slots = False
     rep.check(ok_slots, "R19.2", q, f.loc, "__slots__ are the dataclass field names not already slotted by a base", "__slots__ are not `fields(cls)` names minus the union of the __slots__ of *every* ancestor (cls.mro()): a slot re-declared from a grandparent is duplicated, or type() raises", detail="slots")
@@ -460,6 +475,39 @@ def run(prog: Program, rep: Report, tier: str):
             return v if tm[1] == "in" else not v
         if op == "attr" and tm[2] == "frozen":
             return asg["frozen"]
+        if op == "call" and tm[1][0] == "ref" and tm[1][1] in prog.functions and not tm[3]:
+            # the search moved into a private helper of the module (`_declares_state_hooks(cls)`): its own exits, judged the same way
+            h = prog.functions[tm[1][1]]
+            if h.cls is None and h.module is f.module and h.name.startswith("_") and not h.node.decorator_list and len(tm[2]) == len(h.params) and asg.get("_depth", 0) < 2:
+                sigma = dict(zip(h.params, tm[2]))
+                asg2 = dict(asg, _depth=asg.get("_depth", 0) + 1)
+                verdicts = []
+                try:
+                    hps = P.paths_of(prog, h)
+                except Exception:
+                    return None
+                for q in hps:
+                    if q.exit[0] != "return":
+                        continue
+                    feas = True
+                    for g, pol in q.guards():
+                        v = beval(P.substitute(g, sigma), asg2)
+                        if v is None:
+                            feas = None if feas else feas
+                        elif v != pol:
+                            feas = False
+                            break
+                    if feas is False:
+                        continue
+                    rv = beval(P.substitute(q.exit[1], sigma), asg2)
+                    verdicts.append((feas, rv))
+                if verdicts and all(fe is True for fe, _ in verdicts) and len({rv for _, rv in verdicts}) == 1:
+                    return verdicts[0][1]
+                if any(rv is True and fe is True for fe, rv in verdicts):
+                    return True
+                if verdicts and all(rv is False for _, rv in verdicts):
+                    return False
+                return None
         if op == "call" and T.refname(tm[1]) in ("builtins.all", "builtins.any") and len(tm[2]) == 1 and tm[2][0][0] == "comp" and not tm[2][0][4]:
             c = tm[2][0]
             # the generator over the hook names is expanded; a second generator over the MRO stays symbolic
